@@ -50,16 +50,42 @@ Proof.
   { unfold lazy_add. destruct (Nat.eqb_spec i (sd L)); [contradiction|]. destruct (i <? sd L); reflexivity. }
   assert (E : lazy_apply op (lazy_add L i) = HLazy (lazy_add L i)).
   { destruct (lazy_add L i) as [m n s h]. cbn in Hhid. subst h.
-    destruct Hop as [->|[->| ->]]; reflexivity. }
+    destruct Hop as [->|[->| ->]]; try reflexivity. unfold lazy_apply, lazy_apply_gen. cbn [mbs nmem sd hidden].
+    now rewrite app_nil_r. }
   rewrite E. exact Hid.
 Qed.
 
-(* D192: get(nested key) when the vmapped dim is not the stack dim loses the extra batch dims of the nested tensordict *)
-Theorem lazy_visible_nested_refuted :
-  exists L i o e, hidden L = false /\ i <> sd L /\ i < length (lazy_bs L) /\
-    hres_remove (lazy_apply (HNested e) (lazy_add L i)) (nth i (lazy_bs L) 0) o
-    <> insert_at (hop_sample_bs (HNested e) (remove_nth (lazy_bs L) i)) o (nth i (lazy_bs L) 0).
+(* get(nested key), vmapped dim <> stack dim: the nested tensordict keeps its extra batch dims e (repair of D192) *)
+Lemma lazy_remove_app m n s e B o : s <= length m -> o <= length m + 1 ->
+  lazy_bs (lazy_remove {| mbs := m ++ e; nmem := n; sd := s; hidden := false |} B o)
+  = lazy_bs (lazy_remove {| mbs := m; nmem := n; sd := s; hidden := false |} B o) ++ e.
 Proof.
-  exists {| mbs := [3]; nmem := 2; sd := 0; hidden := false |}, 1, 1, [2].
-  repeat split; try (cbn; lia). vm_compute. discriminate.
+  intros Hs Ho. unfold lazy_remove. cbn [hidden mbs nmem sd].
+  destruct (Nat.ltb_spec s o); unfold lazy_bs; cbn [hidden mbs nmem sd].
+  - rewrite (insert_at_app m e (o - 1) B) by lia. apply insert_at_app. rewrite length_insert_at. lia.
+  - rewrite (insert_at_app m e o B) by lia. apply insert_at_app. rewrite length_insert_at. lia.
 Qed.
+
+Theorem lazy_visible_nested L i o e :
+  hidden L = false -> sd L <= length (mbs L) -> i < length (lazy_bs L) -> i <> sd L -> o <= length (lazy_bs L) - 1 ->
+  hres_remove (lazy_apply (HNested e) (lazy_add L i)) (nth i (lazy_bs L) 0) o
+  = insert_at (hop_sample_bs (HNested e) (remove_nth (lazy_bs L) i)) o (nth i (lazy_bs L) 0).
+Proof.
+  intros Hh Hs Hi Hne Ho.
+  destruct (lazy_vmap_identity L i o Hh Hs Hi Ho) as [Hid _].
+  cbn [hop_sample_bs]. rewrite insert_at_app.
+  2:{ rewrite length_remove_nth by assumption. lia. }
+  change (insert_at (remove_nth (lazy_bs L) i) o (nth i (lazy_bs L) 0)) with (movedim_shape (lazy_bs L) i o).
+  rewrite <- Hid. clear Hid.
+  assert (Hl : length (lazy_bs L) = S (length (mbs L))).
+  { unfold lazy_bs. rewrite Hh. apply length_insert_at. }
+  unfold lazy_add in *. destruct (Nat.eqb_spec i (sd L)); [contradiction|].
+  unfold lazy_apply, lazy_apply_gen, hres_remove.
+  destruct (Nat.ltb_spec i (sd L)); cbn [mbs nmem sd hidden]; apply lazy_remove_app;
+    rewrite ?length_remove_nth by lia; lia.
+Qed.
+
+Example lazy_visible_nested_ex :
+  let L := {| mbs := [3]; nmem := 2; sd := 0; hidden := false |} in
+  hres_remove (lazy_apply (HNested [2]) (lazy_add L 1)) 3 1 = [2; 3; 2].
+Proof. reflexivity. Qed.
